@@ -116,7 +116,13 @@ def harness(eng, sp):
             eng.fail("C08/filtered-tree-dead-end", f"after {spec.history}")
             return
         op, m = D.choose_dispatch(eng, desc, spec, candidates=av)
-        disp.dispatch(D.op_by_id(inst, op), m)
+        try:
+            disp.dispatch(D.op_by_id(inst, op), m)
+        except E.Unsupported:
+            raise
+        except Exception as ex:
+            eng.fail("C08/available-operation-rejected-on-an-eligible-machine", f"{type(ex).__name__}: {ex}"[:200])
+            return
         spec.apply(op, m)
         eng.reachable("transition")
         eng.reachable("state")
